@@ -117,7 +117,13 @@ class _STIXBase(collections.abc.Mapping):
             # (e.g. junk in a custom "granular_markings" property of a type
             # which does not define one) has no selectors to validate.
             if isinstance(m, collections.abc.Mapping):
-                validate(self, m.get('selectors'))
+                try:
+                    validate(self, m.get('selectors'))
+                except RecursionError:
+                    raise InvalidValueError(
+                        self.__class__, 'granular_markings',
+                        "content is nested too deeply to check the selectors against",
+                    )
 
     def __init__(self, allow_custom=False, interoperability=False, **kwargs):
         cls = self.__class__
